@@ -7,6 +7,7 @@ import (
 	"fmt"
 	"os"
 	"strings"
+	"time"
 
 	"golang.org/x/tools/go/ssa"
 )
@@ -41,8 +42,8 @@ type runState struct {
 	steps     int
 	known     map[string]bool // literals already on the path condition
 	knownUp   *runState       // enclosing run state (merge regions)
-	pcSent    int // pc[:pcSent] is asserted in the solver
-	noCheck   int // >0 inside a merge region: no feasibility checks, nothing sent to the solver
+	pcSent    int             // pc[:pcSent] is asserted in the solver
+	noCheck   int             // >0 inside a merge region: no feasibility checks, nothing sent to the solver
 	curInstr  ssa.Instruction
 	depth     int
 	mapEpoch0 int // maps older than this must not be written (merge regions)
@@ -410,6 +411,7 @@ var noMergeAt = map[ssa.Instruction]bool{}
 var mergeForks int
 
 const mergeForkLimit = 24
+
 var mapEpoch int
 
 // Results of merged calls are cached across paths: the same function on the same
@@ -504,6 +506,9 @@ func mergeCallUncached(fn *ssa.Function, args []value, free []value) value {
 	var outs []outcome
 	abnormal := false
 	for len(sub.items) > 0 && !abnormal {
+		if !jobDeadline.IsZero() && time.Now().After(jobDeadline) {
+			panic(unwindFail{"job time budget exhausted (inside a merge region)"})
+		}
 		it := sub.items[len(sub.items)-1]
 		sub.items = sub.items[:len(sub.items)-1]
 		inner := &runState{decisions: it.dec, vars: outer.vars, related: outer.related, nondets: outer.nondets,
